@@ -10,7 +10,7 @@ from harness.tlc import run_tlc, tla, TLCResult
 
 CLAUSES = ['T_InvBcast', 'T_GradBcast', 'T_NoInvMemOpt', 'T_NoGradCommOpt',
            'T_FactorsWorld', 'T_NothingW1', 'T_OncePerUpdate', 'T_Match',
-           'T_Members', 'T_InvSizes', 'T_GradSizes', 'HoldersOK']
+           'T_Members', 'T_InvSizes', 'HoldersOK']
 
 
 def hist_facts(h: list[dict[str, Any]]) -> list[dict[str, Any]]:
